@@ -62,10 +62,8 @@ func (c *GenericNumberState) NextToken(
 		}
 	}
 
-	// Unread last unprocessed symbol.
-	if !utilities.CharValidator.IsEof(nextSymbol) {
-		scanner.Unread()
-	}
+	// Unread last unprocessed symbol (the end-of-input slot was consumed by the read as well).
+	scanner.Unread()
 
 	// Process the result.
 	if !gotADigit {
